@@ -558,7 +558,7 @@ pub fn run(args: &Args) -> Report {
         None => format!("L = {:?} for every combination", b.tcp_lens),
         Some(w) => format!("L = {:?} for every combination, and L = {:?} (adds the window-exceeding length {w}) for the sub-matrix connections = 1 AND chunking = one-write (all 7 entry points, all 5 close orders)", b.tcp_lens, b.tcp_lens.iter().copied().chain([w]).collect::<Vec<_>>()),
     };
-    rep.rule = format!("complete product, every point enumerated (no sampling): TCP = entry point (7) x connections {:?} x chunking (3) x [close order (4) x client->target length in L x target->client length in L + target-refuses x client->target length in L], where {len_rule}; UDP = entry (UDP remote, SOCKS5 UDP with IPv4 header, with domain header) x topology (1 client, 3 clients, 1 socket to 2 entry points; SOCKS5 only: 1 association alternating between 2 targets with the same host string and different ports, and between 2 targets with different host strings 127.0.0.1/127.0.0.2 and the same port) x payload length, 3 request/reply exchanges per leg{}; one execution per point (more only after a lost port race or a deadline hit); a case is distinct when its parameter tuple is distinct", b.concs, if b.slow_udp { format!("; plus the real-time scenarios: UDP entry (3) x [steady sender: 1 datagram of {} bytes per second for 2*UDP_PRUNE_TIMEOUT+3 = {} s to a silent target, which then answers the last one | idle: one exchange, {} s of silence, one more exchange]", udp::SLOW_LEN, 2 * udp::prune_timeout().as_secs() + 3, 2 * udp::prune_timeout().as_secs() + 1) } else { String::new() });
+    rep.rule = format!("complete product, every point enumerated (no sampling): TCP = entry point (7) x connections {:?} x chunking (3) x [close order (4) x client->target length in L x target->client length in L + target-refuses x client->target length in L], where {len_rule}; UDP = entry (UDP remote, SOCKS5 UDP with IPv4 header, with domain header) x topology (1 client, 3 clients, 1 socket to 2 entry points, 1 client whose payload lengths change from datagram to datagram (len, 3, len+500, 0, len+1); SOCKS5 only: 1 association alternating between 2 targets with the same host string and different ports, and between 2 targets with different host strings 127.0.0.1/127.0.0.2 and the same port) x payload length, 3 request/reply exchanges per leg{}; one execution per point (more only after a lost port race or a deadline hit); a case is distinct when its parameter tuple is distinct", b.concs, if b.slow_udp { format!("; plus the real-time scenarios: UDP entry (3) x [steady sender: 1 datagram of {} bytes per second for 2*UDP_PRUNE_TIMEOUT+3 = {} s to a silent target, which then answers the last one | idle: one exchange, {} s of silence, one more exchange]", udp::SLOW_LEN, 2 * udp::prune_timeout().as_secs() + 3, 2 * udp::prune_timeout().as_secs() + 1) } else { String::new() });
     rep.bounds.insert("tcp_entry_points".into(), json!(Entry::ALL.iter().map(|e| e.name()).collect::<Vec<_>>()));
     rep.bounds.insert("tcp_payload_lengths".into(), json!(b.tcp_lens));
     rep.bounds.insert("tcp_payload_length_only_for_1_connection_one_write".into(), json!(b.tcp_len_window));
